@@ -26,13 +26,13 @@ def arg(id, short=None, long=None, aliases=(), valiases=(), saliases=(), action=
         tva=False, hyphen=False, negnum=False, req_eq=False, delim=None, term=None, defaults=(), missing=(),
         default_ifs=(), env=None, exclusive=False, conflicts=(), overrides=(), requires=(), requires_ifs=(),
         req_if_eq=(), req_if_eq_all=(), req_unless=(), req_unless_all=(), ignore_case=False, vp=None, index=0,
-        hide=False, hide_short=False, hide_long=False, nlh=False, help=None, hide_pv=False, disp=-1, heading=""):
+        hide=False, hide_short=False, hide_long=False, nlh=False, help=None, hide_pv=False, disp=-1, heading="", valnames=0):
     """num: None (unset) or (min, max) with max None = unbounded."""
     a = {
         "id": id, "idb": b(id), "short": b(short) if short else [], "long": b(long) if long else [],
         # aliases: every alias the parser answers to; valiases: the visible ones among them (Arg::visible_alias)
         "aliases": [b(x) for x in aliases] + [b(x) for x in valiases], "valiases": [b(x) for x in valiases],
-        "saliases": [b(x) for x in saliases], "heading": heading, "action": action,
+        "saliases": [b(x) for x in saliases], "heading": heading, "valnames": valnames, "action": action,
         "nset": num is not None, "nmin": num[0] if num else 0, "nmax": (INF if num[1] is None else num[1]) if num else 0,
         "required": required, "global": glob, "last": last, "tva": tva, "hyphen": hyphen, "negnum": negnum,
         "req_eq": req_eq, "delim": ord(delim) if delim else 0, "term": b(term) if term else [],
@@ -241,6 +241,10 @@ def f_core():
     add("pos-multi-then-last", cmd("p", [arg("first", num=(1, None)), arg("rest", num=(1, None), last=True), arg("f", "f", action="SetTrue")]))
     add("negative-numbers", cmd("p", [arg("nums", num=(1, None), negnum=True), arg("v", "v", action="SetTrue"),
                                       arg("offs", "o", "offsets", num=(1, None), negnum=True)]), extra=["-1", "-2", "1"])
+    # Arg::value_names: more than one name fixes the number of values unless num_args says otherwise
+    add("value-names", cmd("p", [arg("pair", "p", "pair", valnames=2), arg("one", "o", "one", valnames=1), arg("tri", "t", "tri", valnames=2, num=(1, 3)),
+                                 arg("f", "f", action="SetTrue")]), extra=["--pair=a"])
+    add("value-names-positional", cmd("p", [arg("pt", valnames=2), arg("f", "f", action="SetTrue")]))
     add("delim-multibyte", cmd("p", [arg("o", "o", "opt", delim="\u3001", action="Append"), arg("p1", num=(0, None), delim="\U0001F600")]),
         extra=["a\u3001b", "--opt=x\u3001y", "c\U0001F600d", "\u3001"])
     add("missing-delim-dont-trailing", cmd("p", [arg("o", "o", "opt", num=(0, None), delim=",", missing=["a,b"]), arg("p1", num=(0, None), delim=",")],
